@@ -18,7 +18,10 @@ Streams
 import itertools
 from fractions import Fraction as F
 
-import numpy as np
+import os
+for _v in ('OMP_NUM_THREADS', 'OPENBLAS_NUM_THREADS', 'MKL_NUM_THREADS'):
+    os.environ.setdefault(_v, '2')   # small matrices only: BLAS threading is pure overhead here
+import numpy as np  # noqa: E402
 
 from common import Stream, budget, rng_for, to_gq, from_gq, dyadic, show
 
@@ -40,7 +43,8 @@ OPEN_STATEMENTS = [
     '(i/2) sum A f f equal M, Delta/2, -Delta*/2 and the constant shift); the CAR step from coefficients to operators is '
     'checked by spec.eq on every generated input, not proved.',
     'antisymmetric_canonical_form: final shape [[0,D],[-D,0]], D >= 0 ascending for every aligned Schur form: not proved '
-    '(oracle only).  Proved: every pass is a simultaneous row/column transposition (entry-level), involutive.',
+    '(oracle only).  Proved: all four passes reindex the Schur pair by one permutation (so A = R^T C R is invariant); the '
+    'summation step from the entry-level reindexing to the matrix identity O C O^T is argued in the docstring, not formalised.',
     'gaussian state / Slater determinant correctness (state = b+_1..b+_eta|vac> up to phase): oracle only; FALSE on the real '
     'code for explicit occupations of a non-particle-conserving Hamiltonian when the annihilation block of the Bogoliubov '
     'matrix is singular (known finding F12, consequence of C11/F11).',
